@@ -62,7 +62,7 @@ build_server() {
 
 needs_server() {
     case "$1" in
-        C02|C08|C09|C12|C13|C14|C15|C16|C17|C18|C19|C20) return 0 ;;
+        C02|C08|C09|C11|C12|C13|C14|C15|C16|C17|C18|C19|C20) return 0 ;;
         *) return 1 ;;
     esac
 }
